@@ -4,7 +4,7 @@ import { loadModule } from '../runtime/evalhost.mjs';
 
 export const id = 'C20';
 
-export const PROVENANCE = ['vueNamed', 'vueNamedInner', 'vueAliased', 'nsMember', 'localFn', 'shadowed', 'otherModule', 'localArrowConst', 'vueOtherExportAsName', 'vueNamedSplitImports', 'vueAliasedPlusForeign', 'foreignAfterVueImport'];
+export const PROVENANCE = ['vueNamed', 'vueNamedInner', 'vueAliased', 'nsMember', 'localFn', 'shadowed', 'otherModule', 'localArrowConst', 'vueOtherExportAsName', 'vueNamedSplitImports', 'vueAliasedPlusForeign', 'foreignAfterVueImport', 'vueLikeModule'];
 export const DECLS = ['const', 'let', 'var', 'exportConst', 'exportDefault', 'assignment', 'nestedInCall', 'objectProp'];
 // user-supplied option keys: how each of props / emits / name is written (or not)
 const KEY_FORMS = ['absent', 'kv', 'strKey', 'shorthand', 'computedLit', 'viaSpread'];
@@ -14,7 +14,7 @@ const USER = { props: 'UP', emits: 'UE', name: '"UserName"' };
 
 function buildCase(rng, prov, decl, shape, forms, resolveType) {
   const L = [];
-  const callee = { vueNamed: 'defineComponent', vueNamedInner: 'defineComponent', vueAliased: 'dc', nsMember: 'Vue.defineComponent', localFn: 'defineComponent', shadowed: 'defineComponent', otherModule: 'defineComponent', localArrowConst: 'defineComponent', vueOtherExportAsName: 'defineComponent', vueNamedSplitImports: 'defineComponent', vueAliasedPlusForeign: 'defineComponent', foreignAfterVueImport: 'defineComponent' }[prov];
+  const callee = { vueNamed: 'defineComponent', vueNamedInner: 'defineComponent', vueAliased: 'dc', nsMember: 'Vue.defineComponent', localFn: 'defineComponent', shadowed: 'defineComponent', otherModule: 'defineComponent', localArrowConst: 'defineComponent', vueOtherExportAsName: 'defineComponent', vueNamedSplitImports: 'defineComponent', vueAliasedPlusForeign: 'defineComponent', foreignAfterVueImport: 'defineComponent', vueLikeModule: 'defineComponent' }[prov];
   const needsCtxImport = true;
   switch (prov) {
     case 'vueNamed': case 'vueNamedInner': case 'shadowed': L.push('import { defineComponent, SetupContext } from "vue";'); break;
@@ -27,6 +27,8 @@ function buildCase(rng, prov, decl, shape, forms, resolveType) {
     // a foreign defineComponent imported AFTER an import from vue
     case 'foreignAfterVueImport': L.push('import { ref as unusedRef, SetupContext } from "vue";', 'import { defineComponent } from "other";'); break;
     case 'otherModule': L.push('import { defineComponent } from "other";', 'import type { SetupContext } from "vue";'); break;
+    // modules whose specifier merely starts with "vue"
+    case 'vueLikeModule': L.push(`import { defineComponent } from "${rng.pick(['vue-class-component', 'vuetify/lib/util', 'vue2-helpers', 'vuex'])}";`, 'import type { SetupContext } from "vue";'); break;
     default: L.push('import type { SetupContext } from "vue";');
   }
   L.push('const UP = { userProp: String };', 'const UE = ["user-evt"];', 'interface P { a: string }');
@@ -80,7 +82,7 @@ function buildCase(rng, prov, decl, shape, forms, resolveType) {
     // a call without arguments has no options position to augment
     case 'noArgs': args = ''; augmentable = false; for (const k of Object.keys(supplied)) delete supplied[k]; break;
     case 'objectFirstArg': args = `{ name: "ObjForm", props: UP, setup() { return () => null; } }`; augmentable = false; for (const k of Object.keys(supplied)) delete supplied[k]; break;
-    case 'namedFnExpr': args = `function OwnName(props: P) { return () => null; }${members.length + other.length ? `, { ${[...members, ...other].join(', ')} }` : ''}`; fnName = 'OwnName'; for (const k of Object.keys(supplied)) if (forms[k] === 'viaSpread') delete supplied[k]; break;
+    case 'namedFnExpr': fnName = rng.pick(['OwnName', 'OwnName', 'setupFn', '_panel', '$panel', 'renderPanel']); args = `function ${fnName}(props: P) { return () => null; }${members.length + other.length ? `, { ${[...members, ...other].join(', ')} }` : ''}`; for (const k of Object.keys(supplied)) if (forms[k] === 'viaSpread') delete supplied[k]; break;
     default: throw new Error(shape);
   }
   const call = `${callee}(${args})`;
@@ -143,7 +145,7 @@ export function* generate({ tier, seed }) {
 
 const ENV = {
   globals: { recordDC: { v: { k: 'fn', id: 'recordDC' }, log: false } },
-  modules: { other: { defineComponent: { k: 'fn', id: 'other.defineComponent' } } },
+  modules: Object.fromEntries(['other', 'vue-class-component', 'vuetify/lib/util', 'vue2-helpers', 'vuex'].map((m) => [m, { defineComponent: { k: 'fn', id: 'other.defineComponent' } }])),
 };
 
 function canonOpt(v) {
@@ -209,7 +211,7 @@ export async function check(group, records) {
     // non-vue callee: the call must be untouched (same argument count, no injected keys)
     const calls = rt.log.filter((e) => (e.k === 'call' && (e.id === 'recordDC' || e.id === 'other.defineComponent')) || e.k === 'defineAsyncComponent');
     if (calls.length !== 1) return [inconclusive({ ...base, reason: `expected 1 recorded call, saw ${calls.length}` })];
-    const expectedArgc = { noArgs: 0, identOptionsThirdArg: 3, objLiteralThirdArg: 3, none: 1, objLiteral: 2, objLiteralTwoSpreads: 2, identOptions: 2, callOptions: 2, spreadArgsAll: 2, spreadArgsRest: 2, spreadArgsSetupOnly: 1, spreadHeadThenOpts: 2, objectFirstArg: 1, namedFnExpr: /, \{/.test(group.cases.v0.src.split('OwnName')[1] || '') ? 2 : 1 }[spec.shape];
+    const expectedArgc = { noArgs: 0, identOptionsThirdArg: 3, objLiteralThirdArg: 3, none: 1, objLiteral: 2, objLiteralTwoSpreads: 2, identOptions: 2, callOptions: 2, spreadArgsAll: 2, spreadArgsRest: 2, spreadArgsSetupOnly: 1, spreadHeadThenOpts: 2, objectFirstArg: 1, namedFnExpr: /, \{/.test(group.cases.v0.src.split(`function ${spec.fnName}(`)[1] || '') ? 2 : 1 }[spec.shape];
     const argc = calls[0].id === 'recordDC' ? undefined : calls[0].argc;
     // recordDC("tag", argc, a, b): look at the final text instead of the values for the injected keys
     const finalCall = rec.final;
